@@ -5,6 +5,41 @@ const base = require('./impl_js.js');
 const {OPS, enc_str, dec_str, enc_list, dec_list, enc_table, dec_table, repo} = base;
 const rbql = require(path.join(repo, 'rbql-js', 'rbql.js'));
 
+// the shallow parser functions of rbql.js (a separate implementation of the Python ones), same output format as impl_py.py
+const STMT_RANK = {'JOIN': 0, 'SELECT': 1, 'ORDER BY': 2, 'WHERE': 3, 'UPDATE': 4, 'GROUP BY': 5, 'LIMIT': 6, 'EXCEPT': 7};
+function classify_parse_error(e) {
+    const msg = String(e && e.message !== undefined ? e.message : e);
+    if (e && e.constructor && e.constructor.name == 'AssertionError') return 'err assertion';
+    let m = /More than one "(.*)" statements found/.exec(msg);
+    if (m) return 'err more-than-one ' + m[1].replace(/ /g, '_');
+    if (msg.indexOf('UPDATE keyword must be at the beginning') != -1) return 'err update-not-first';
+    if (msg.indexOf('SELECT keyword must be at the beginning') != -1) return 'err select-not-first';
+    if (msg.indexOf('must contain either SELECT or UPDATE') != -1) return 'err no-select-no-update';
+    if (msg.indexOf('Invalid join syntax') != -1) return 'err invalid-join';
+    if (msg.indexOf('ssert') != -1) return 'err assertion';
+    return 'err other ' + enc_str(msg.slice(0, 60));
+}
+const enc_bool = b => b ? '1' : '0';
+OPS['actionsjs'] = async (t) => {
+    let r;
+    try { r = rbql.separate_actions(dec_str(t)); } catch (e) { return classify_parse_error(e); }
+    const w = r.hasOwnProperty('WITH') ? enc_str(r['WITH']) : '~';
+    const keys = Object.keys(r).filter(k => k != 'WITH').sort((a, b) => (STMT_RANK[a] === undefined ? 8 : STMT_RANK[a]) - (STMT_RANK[b] === undefined ? 8 : STMT_RANK[b]));
+    const opt = v => (v === null || v === undefined) ? '~' : v;
+    const acts = keys.map(st => {
+        const p = r[st];
+        return [st.replace(/ /g, '_'), enc_str(p['text']), opt(p['join_subtype'] ? p['join_subtype'].replace(/ /g, '_') : null),
+                opt(p.hasOwnProperty('reverse') ? enc_bool(p['reverse']) : null), opt(p['top'] === undefined || p['top'] === null ? null : String(p['top'])),
+                enc_bool(!!p['distinct']), enc_bool(!!p['distinct_count'])].join(':');
+    });
+    return 'ok ' + w + ' ' + acts.join(' ');
+};
+OPS['joinexprjs'] = async (t) => {
+    let r;
+    try { r = rbql.parse_join_expression(dec_str(t)); } catch (e) { return classify_parse_error(e); }
+    return 'ok ' + enc_str(r[0]) + ' ' + r[1].map(p => enc_str(p[0]) + '=' + enc_str(p[1])).join(' ');
+};
+
 OPS['likebatch'] = async (js, table) => {
     const rows = dec_table(table);
     let out = [];
